@@ -38,8 +38,13 @@ func (v *Vue) evalTemplate(ctx VueContext, nodes []*html.Node, componentData map
 
 			delete(vars, "include")
 
-			// auto decode params as json, e.g. `data="{...}"` or `[...]`
+			// auto decode params as json, e.g. `data="{...}"` or `[...]`: only JSON written in
+			// the template itself. A bound value (`:p="v"`) keeps its type, and a string that
+			// arrives through `p="{{ v }}"` stays the string it is.
 			for k, v := range vars {
+				if !isLiteralJSONAttr(helpers.GetAttr(node, k)) {
+					continue
+				}
 				if vs, ok := v.(string); ok {
 					if strings.HasPrefix(vs, "{") || strings.HasPrefix(vs, "[") {
 						var out any
@@ -181,4 +186,14 @@ func (v *Vue) evalTemplate(ctx VueContext, nodes []*html.Node, componentData map
 
 	// If no template tag, return nodes as-is
 	return nodes, nil
+}
+
+// isLiteralJSONAttr reports whether the attribute text, as written in the template, starts a
+// JSON object or array (and not a mustache).
+func isLiteralJSONAttr(raw string) bool {
+	raw = strings.TrimSpace(raw)
+	if strings.HasPrefix(raw, "{{") {
+		return false
+	}
+	return strings.HasPrefix(raw, "{") || strings.HasPrefix(raw, "[")
 }
